@@ -664,7 +664,7 @@ class Exec:
                     st.events.append(('assert-fails', t['msg'], c, t['sp']))
                     self._end(outs, 'diverge', None, st, 'assert always fails: ' + t['msg'])
                     return
-                st.events.append(('assert', t['msg'], c, t['sp']))
+                st.events.append(('assert', t['msg'], c, t['sp'], t['expected']))
                 bb = t['bb']
                 continue
             if k == 'switch':
